@@ -33,6 +33,28 @@ func expandC09(_ *testing.T, seed uint64, tier string) []*core.Plan {
 	if r.Chance(1, 4) {
 		p.SetKnob("sessfail", r.Range(1, 12))
 	}
+	if seed%13 == 5 {
+		// Disconnect with a timeout while acknowledgements trickle in and time
+		// passes: the wait for the remaining futures must still be bounded
+		p.SetKnob("actors", 2)
+		p.SetKnob("park", r.Pick(2, 3))
+		p.SetKnob("loose", 1) // goroutines may stay parked while the clock advances
+		delete(p.Knobs, "sessfail")
+		p.Items = append(p.Items, core.Item{K: "dialcfg", B: 4}, core.Item{K: "connect", A: 0, B: 0})
+		n := r.Range(2, 4)
+		for i := 1; i <= n; i++ {
+			p.Items = append(p.Items, core.Item{K: "pub", A: r.Pick(1, 2), D: i})
+		}
+		p.Items = append(p.Items, core.Item{K: "disc", A: r.Pick(50, 100, 1000)})
+		for i := 0; i < n-1; i++ {
+			p.Items = append(p.Items, core.Item{K: "back1"})
+			if r.Chance(1, 2) {
+				p.Items = append(p.Items, core.Item{K: "adv", A: r.Pick(20, 60, 200, 1500)})
+			}
+		}
+		p.Items = append(p.Items, core.Item{K: "adv", A: 2000}, core.Item{K: "none"})
+		return []*core.Plan{p}
+	}
 	tag := 0
 	nclients := r.Range(1, 3)
 	for c := 0; c < nclients; c++ {
@@ -639,6 +661,11 @@ func (r *cliRun) judge(p *core.Plan) {
 	var connOrder []int
 	connClean := map[int]bool{}
 	resent := map[int]map[packet.ID]string{}
+	type relWant struct {
+		id  packet.ID
+		seq uint64
+	}
+	wantRel := map[int][]relWant{}
 	ended := map[int]bool{}
 	expectResend := map[int]map[packet.ID]ost{}
 	connacked := map[int]bool{}
@@ -752,6 +779,44 @@ func (r *cliRun) judge(p *core.Plan) {
 			case *packet.Pubrec:
 				if o, ok := outstanding[q.ID]; ok {
 					outstanding[q.ID] = ost{"PUBREL", o.tag}
+				}
+				// the record of a stored QoS 2 publish is replaced by the PUBREL once
+				// the PUBREC arrived - also for a publish retransmitted by a later client
+				if v, ok := saved[q.ID]; ok && v != "PUBREL" && strings.Contains(v, "#") {
+					wantRel[e.C] = append(wantRel[e.C], relWant{q.ID, e.Seq})
+				}
+			}
+		}
+	}
+	if !sessFault {
+		for cn, l := range wantRel {
+			for _, rw := range l {
+				// what happened on that connection after the PUBREC was received?
+				gotSave, gotSend, died := false, false, false
+				for _, e := range w.Hist {
+					if e.Seq <= rw.seq {
+						continue
+					}
+					switch {
+					case e.K == EvSess && e.S == "save/1" && e.Err == nil:
+						if q, ok := e.P.(*packet.Pubrel); ok && q.ID == rw.id {
+							gotSave = true
+						}
+					case e.K == EvSend && e.C == cn:
+						if q, ok := e.P.(*packet.Pubrel); ok && q.ID == rw.id {
+							gotSend = true
+						}
+					case e.C == cn && (e.K == EvFault || e.K == EvClose || (e.K == EvRecv && e.Err != nil) || (e.K == EvSent && e.Err != nil)):
+						if !gotSave {
+							died = true
+						}
+					case e.K == EvSess && (e.S == "reset" || e.S == fmt.Sprintf("delete/1/%d", rw.id)) && !gotSave:
+						died = true // the record went away for another reason (clean teardown, spurious acknowledgement)
+					}
+				}
+				if !died && (!gotSave || !gotSend) {
+					res.Violate("C09", "C09.pubrec-replaces-record", fmt.Sprintf("save%v-send%v", gotSave, gotSend),
+						fmt.Sprintf("connection %d received PUBREC(%d) for a QoS 2 publish that the session holds, but the record was not replaced by a PUBREL (saved: %v) / no PUBREL was sent (sent: %v)", cn, rw.id, gotSave, gotSend))
 				}
 			}
 		}
